@@ -208,6 +208,26 @@ class C02Update:
         mu = np.asarray(kw["mu"], dtype=float)
         eps = np.asarray(kw["epsilon"], dtype=float)
         cur = sim.cur
+        if cur is not None and rec["screen_iter"] == 0 and cur.get("in") is not None and sim.scn.get("physics") != "stub":
+            # z and w of the update n -> n+1 are built from (psi^n, mu^n), the state the step was handed
+            # (and frame n records): a potential or order parameter re-derived on the side makes the
+            # answer solve some other equation (later screening iterations restart from the previous
+            # iterate by design and are not judged here)
+            mu_n = cur["in"].get("mu")
+            if mu_n is not None and np.shape(mu_n) == mu.shape and np.all(np.isfinite(mu_n)) and not aeq(mu, np.asarray(mu_n, dtype=float)):
+                dm = np.abs(mu - np.asarray(mu_n, dtype=float))
+                i = int(np.argmax(dm))
+                return [Violation("state-in-force", f"step {rec['step']} (stage {rec['stage']}): the update is evaluated with mu = {mu[i]:.12g} at site {i} where the state of step n has mu^n = {float(mu_n[i]):.12g}", step=rec["step"], stage=rec["stage"], gamma=float(kw["gamma"]), dt=float(kw["dt"]))]
+            psi_n = cur["in"].get("psi")
+            if psi_n is not None and np.shape(psi_n) == psi.shape and np.all(np.isfinite(psi_n)):
+                c_ = get_ctx(sim)
+                mask = np.ones(len(psi), dtype=bool)
+                if len(c_.pinned):
+                    mask[c_.pinned] = False  # terminal sites may be re-set to the terminal value first
+                if not aeq(psi[mask], np.asarray(psi_n)[mask]):
+                    dp = np.abs(psi - np.asarray(psi_n)) * mask
+                    i = int(np.argmax(dp))
+                    return [Violation("state-in-force", f"step {rec['step']} (stage {rec['stage']}): the update is evaluated with psi = {psi[i]:.12g} at site {i} where the state of step n has psi^n = {complex(psi_n[i]):.12g}", step=rec["step"], stage=rec["stage"], gamma=float(kw["gamma"]), dt=float(kw["dt"]))]
         if cur is not None and sim.scn.get("physics") != "stub" and "drive" in sim.scn:
             # w is defined with epsilon^n = epsilon(r, t^n): the declared function at the time of the step
             lay = sim.scn["device"]["layer"]
